@@ -26,6 +26,7 @@ type c17Desc struct {
 	Cap      int      `json:"cap"`      // capacity of the pipe towards the peer (0 = unbounded)
 	Stall    bool     `json:"stall"`    // the peer never reads: writes beyond the capacity block until cancelled
 	Partial  bool     `json:"partial,omitempty"` // writes deliver as many bytes as there is room for and block for the rest (a kernel socket buffer), so a cancelled write may have put part of its bytes on the wire
+	Quiet    bool     `json:"quiet,omitempty"` // the peer writes nothing beyond the first GateData chunks until the last operation under the ending context has returned
 	ReplyTo  []int    `json:"reply_to,omitempty"` // client scenarios (ops S, V, C): the peer answers the request of these ops (and only these) when it sees it
 }
 
@@ -176,7 +177,10 @@ func c17Body(d c17Desc) func() {
 			return
 		}
 		vsched.GoDaemon("PW", func() {
-			for _, c := range d.Chunks {
+			for i, c := range d.Chunks {
+				if d.Quiet && i == d.GateData {
+					vsched.Yield("quiet-peer", "PW", func() bool { return len(st.ops) >= d.NCancel && st.ops[d.NCancel-1].returned })
+				}
 				peer.Write([]byte(c))
 				chunksWritten++
 				st.nWritten += len(c)
@@ -395,6 +399,11 @@ func scenariosC17(tier string) []Scen {
 								b++
 							}
 							add(c17Desc{Ops: ops, NCancel: nc, Kind: kind, Chunks: ch, GateOp: gop, GateData: gd, Cap: capv}, b)
+							if kind == "dlcancel" && capv == 0 && nc == 1 && gop == 1 && gd < len(ch) {
+								// the peer stays quiet until the abandoned operation has returned: nothing but the cancellation
+								// itself can end it
+								add(c17Desc{Ops: ops, NCancel: nc, Kind: kind, Chunks: ch, GateOp: gop, GateData: gd, Quiet: true}, b)
+							}
 						}
 					}
 				}
